@@ -713,6 +713,16 @@ impl Op {
     }
 }
 
+impl Drop for Op {
+    /// the controller is done with this operation: drop the library future too, so that a
+    /// sender that is still parked does not keep itself (and the connection objects) alive
+    /// through the waker it left in the sink's waiter list
+    fn drop(&mut self) {
+        let f = self.inner.borrow_mut().take();
+        drop(f);
+    }
+}
+
 thread_local! {
     static OP_IDS: Cell<u32> = const { Cell::new(0) };
 }
